@@ -101,6 +101,7 @@ _CHANGES = {
     "n_neighbors": [1, 2], "class_prior": [0.0, 2.0], "kappa_0": [0.5, 3.0], "nu_0": [3.0, 8.0], "sigma_sq_0": [0.5, 2.0],
     "mu_0": [-1.0, 2.0], "weight_mode": ["responsibilities", "similarities"], "window_size": [2, 4], "only_labeled": [True, False],
     "voting": ["soft", "hard"], "max_iter": [5, 60], "weights_prior": [0.5, 2.0], "annot_prior_full": [1, 3],
+    "random_state": [11, 12],
 }
 
 
@@ -116,6 +117,8 @@ def _param_change(est, rng):
         if leaf in _CHANGES and not isinstance(v, (dict, list)):
             if leaf == "n_neighbors" and v is None:
                 continue
+            if leaf == "random_state" and not isinstance(v, (int, np.integer)):
+                continue
             cands.append(k)
         elif leaf == "metric_dict" and (v is None or isinstance(v, dict)) and "gamma" not in str(v if v else ""):
             cands.append(k)
@@ -130,6 +133,14 @@ def _param_change(est, rng):
         return {k: {"gamma": float(rng.choice([0.3, 2.0]))}}
     vals = [v for v in _CHANGES[leaf] if v != params[k]] or _CHANGES[leaf]
     return {k: vals[rng.randint(len(vals))]}
+
+
+def _takes_weights(est):
+    import inspect
+    try:
+        return "sample_weight" in inspect.signature(est.fit).parameters
+    except (TypeError, ValueError):
+        return False
 
 
 def _predict_all(est, Q, fam):
@@ -188,7 +199,12 @@ def run_estimator(desc):
         X, y = _data(rng, kind, multi)
         try:
             steps.begin()
-            if op == "fit":
+            if op == "fit" and rng.rand() < 0.35 and _takes_weights(est):
+                # a weighted fit in the history: nothing of it may survive into the final, unweighted fit
+                est.fit(X, y, sample_weight=np.round(rng.rand(*np.shape(y)) * 3 + 0.1, 2))
+                nfits += 1
+                op = "fit_weighted"
+            elif op == "fit":
                 est.fit(X, y)
                 nfits += 1
             elif op == "partial_fit":
